@@ -72,6 +72,9 @@ def run_job(job):
         e.entry_args = list(job.get("args", []))
         for k, v in job.get("engine_opts", {}).items():
             setattr(e, k, v)
+        if job.get("stubs"):
+            from . import models as M
+            M.install_stubs(e, job["stubs"])
         hook = job.get("setup")
         if hook:
             mod, fn = hook.rsplit(".", 1)
